@@ -762,9 +762,13 @@ func writeEvidence(prop, tier string, seed uint64, meta propMeta, agg summary, d
 			"sampling, not enumeration: a clean batch is evidence, not proof",
 		},
 	}
-	os.MkdirAll(filepath.Join(root, "evidence"), 0o755)
+	evDir := filepath.Join(root, "evidence")
+	if d := os.Getenv("VERIF_EVIDENCE_DIR"); d != "" {
+		evDir = d // runs against deliberately broken trees must not overwrite the evidence of the real tree
+	}
+	os.MkdirAll(evDir, 0o755)
 	b, _ := json.MarshalIndent(ev, "", " ")
-	if err := os.WriteFile(filepath.Join(root, "evidence", prop+".json"), b, 0o644); err != nil {
+	if err := os.WriteFile(filepath.Join(evDir, prop+".json"), b, 0o644); err != nil {
 		fmt.Fprintf(os.Stderr, "check: cannot write evidence: %v\n", err)
 	}
 }
